@@ -1117,6 +1117,8 @@ class AstMixin:
             return True
         if isinstance(v, SList):
             return len(v.items) > 0
+        if type(v).__name__ == "SBytes":
+            return len(v.items) > 0
         if isinstance(v, SDict):
             return len(v.items) > 0
         if isinstance(v, SStr):
@@ -1138,7 +1140,7 @@ class AstMixin:
         return self.branch(t, "truth")
 
     def iterate(self, it: Any) -> list[Any]:
-        if isinstance(it, SList):
+        if isinstance(it, SList) or type(it).__name__ == "SBytes":
             return list(it.items)
         if isinstance(it, SDict):
             return list(it.items.keys())
